@@ -63,27 +63,24 @@ func c07Keccak(bits int) c07Kind {
 	return k
 }
 
-func c07Std(rt *rapid.T) c07Kind {
-	switch rapid.IntRange(0, 7).Draw(rt, "stdKind") {
-	case 0:
-		return c07Kind{name: "sha3-224(std)", family: "std", size: 28, bs: 144, fresh: sha3.New224, ref: func(m []byte) []byte { return ref.SHA3(224, m) }}
-	case 1:
-		return c07Kind{name: "sha3-256(std)", family: "std", size: 32, bs: 136, fresh: sha3.New256, ref: func(m []byte) []byte { return ref.SHA3(256, m) }}
-	case 2:
-		return c07Kind{name: "sha3-384(std)", family: "std", size: 48, bs: 104, fresh: sha3.New384, ref: func(m []byte) []byte { return ref.SHA3(384, m) }}
-	case 3:
-		return c07Kind{name: "sha3-512(std)", family: "std", size: 64, bs: 72, fresh: sha3.New512, ref: func(m []byte) []byte { return ref.SHA3(512, m) }}
-	case 4:
-		return c07Kind{name: "shake128(wrapper)", family: "std", size: 32, bs: 168, fresh: func() hash.Hash { return sha3.NewShake128() }, ref: func(m []byte) []byte { return ref.Shake(128, m, 32) }}
-	case 5:
-		return c07Kind{name: "shake256(wrapper)", family: "std", size: 64, bs: 136, fresh: func() hash.Hash { return sha3.NewShake256() }, ref: func(m []byte) []byte { return ref.Shake(256, m, 64) }}
-	case 6:
-		n, s := []byte("N-c07"), []byte("custom")
-		return c07Kind{name: "cshake128(wrapper)", family: "std", size: 32, bs: 168, fresh: func() hash.Hash { return sha3.NewCShake128(n, s) }, ref: func(m []byte) []byte { return ref.CShake(128, n, s, m, 32) }}
-	default:
-		s := []byte("S only")
-		return c07Kind{name: "cshake256(wrapper)", family: "std", size: 64, bs: 136, fresh: func() hash.Hash { return sha3.NewCShake256(nil, s) }, ref: func(m []byte) []byte { return ref.CShake(256, nil, s, m, 64) }}
+func c07StdKinds() []c07Kind {
+	n, s := []byte("N-c07"), []byte("custom")
+	s2 := []byte("S only")
+	return []c07Kind{
+		{name: "sha3-224(std)", family: "std", size: 28, bs: 144, fresh: sha3.New224, ref: func(m []byte) []byte { return ref.SHA3(224, m) }},
+		{name: "sha3-256(std)", family: "std", size: 32, bs: 136, fresh: sha3.New256, ref: func(m []byte) []byte { return ref.SHA3(256, m) }},
+		{name: "sha3-384(std)", family: "std", size: 48, bs: 104, fresh: sha3.New384, ref: func(m []byte) []byte { return ref.SHA3(384, m) }},
+		{name: "sha3-512(std)", family: "std", size: 64, bs: 72, fresh: sha3.New512, ref: func(m []byte) []byte { return ref.SHA3(512, m) }},
+		{name: "shake128(wrapper)", family: "std", size: 32, bs: 168, fresh: func() hash.Hash { return sha3.NewShake128() }, ref: func(m []byte) []byte { return ref.Shake(128, m, 32) }},
+		{name: "shake256(wrapper)", family: "std", size: 64, bs: 136, fresh: func() hash.Hash { return sha3.NewShake256() }, ref: func(m []byte) []byte { return ref.Shake(256, m, 64) }},
+		{name: "cshake128(wrapper)", family: "std", size: 32, bs: 168, fresh: func() hash.Hash { return sha3.NewCShake128(n, s) }, ref: func(m []byte) []byte { return ref.CShake(128, n, s, m, 32) }},
+		{name: "cshake256(wrapper)", family: "std", size: 64, bs: 136, fresh: func() hash.Hash { return sha3.NewCShake256(nil, s2) }, ref: func(m []byte) []byte { return ref.CShake(256, nil, s2, m, 64) }},
 	}
+}
+
+func c07Std(rt *rapid.T) c07Kind {
+	ks := c07StdKinds()
+	return ks[rapid.IntRange(0, len(ks)-1).Draw(rt, "stdKind")]
 }
 
 func c07Marshal(h hash.Hash) ([]byte, error) {
@@ -433,6 +430,115 @@ func TestC07(t *testing.T) {
 			}
 		}
 	}
+	// concurrency part: marshal / unmarshal / continue on separate objects from several goroutines at once
+	{
+		kindsAll := append([]c07Kind{c07B2b(64), c07B2b(20), c07B2s(), c07Keccak(256), c07Keccak(512)}, c07StdKinds()...)
+		failure, calls, ks := concPart("C07", ev.Scale(4000, 30000), func(d *drbg, w int) []concJob {
+			var jobs []concJob
+			for i := 0; i < 6; i++ {
+				k := kindsAll[d.intn(len(kindsAll))]
+				msg := d.bytes(d.intn(500))
+				cut := d.intn(len(msg) + 1)
+				prefix := d.bytes(d.intn(40))
+				jobs = append(jobs, concJob{name: fmt.Sprintf("%s Write(%d) marshal [%d-byte destination prefix] unmarshal Write(%d) Sum", k.name, cut, len(prefix), len(msg)-cut), run: func() []byte {
+					h := k.fresh()
+					h.Write(msg[:cut])
+					var state []byte
+					if ap, ok := h.(encoding.BinaryAppender); ok && len(prefix) > 0 {
+						res, err := ap.AppendBinary(append([]byte{}, prefix...))
+						if err != nil || len(res) < len(prefix) {
+							return nil
+						}
+						state = res[len(prefix):]
+					} else {
+						var err error
+						if state, err = c07Marshal(h); err != nil {
+							return nil
+						}
+					}
+					h2 := k.fresh()
+					if err, _ := c07Unmarshal(h2, state); err != nil {
+						return nil
+					}
+					h2.Write(msg[cut:])
+					return h2.Sum(nil)
+				}, want: k.ref(msg)})
+			}
+			return jobs
+		})
+		if failure != "" {
+			what := "concurrent marshal/unmarshal on separate objects: " + failure
+			c.Violation(what, "")
+			t.Fatalf("VF-VIOLATION: property=C07 %s", what)
+		}
+		for _, k := range ks {
+			c.Case(true, fmt.Sprintf("concurrent|k=%d", k), fmt.Sprintf("concurrency:k=%d", k))
+		}
+		c.ClassN("concurrency:calls", calls)
+	}
+	flushSumLayouts(c)
+	// serialisation entry points x destination layouts, enumerated: for every kind that implements
+	// encoding.BinaryAppender, every prefix length 0..2*len+8 with exact capacity and with spare capacity
+	// (smaller than / larger than needed); the appended region must equal MarshalBinary(), leave the caller's
+	// bytes and spare capacity alone, and restore to a hash that continues to the reference digest
+	nA := 0
+	appKinds := append([]c07Kind{c07Keccak(256), c07Keccak(512), c07B2b(64), c07B2s()}, c07StdKinds()...)
+	for _, k := range appKinds {
+		for _, fill := range []int{0, 5, k.bs - 1, k.bs + 3} {
+			h := k.fresh()
+			msg := seqBytes(fill + 33)
+			h.Write(msg[:fill])
+			_, isAppender := h.(encoding.BinaryAppender)
+			m0, err := c07Marshal(h)
+			if err != nil {
+				c.Inconclusive("cannot marshal a valid " + k.name + " state")
+				t.Fatal(err)
+			}
+			maxP := 2*len(m0) + 8
+			if !isAppender {
+				maxP = 0 // MarshalBinary is the only entry point
+				c.Class("layout-enum:" + k.family + ":MarshalBinary-only")
+			}
+			for pl := 0; pl <= maxP; pl++ {
+				item++
+				if !ev.Mine(item) {
+					continue
+				}
+				for ci, spare := range []int{0, len(m0) / 2, len(m0) + 7} {
+					l := c07Layout{entry: "AppendBinary(prefix)", prefix: seqBytes(pl), spare: spare}
+					if !isAppender {
+						l = c07Layout{entry: "MarshalBinary"}
+					} else if pl == 0 && ci == 0 {
+						l = c07Layout{entry: "AppendBinary(nil)"}
+					}
+					state, class, err := c07Serialize(k, h, l, false)
+					if err == nil {
+						h2 := k.fresh()
+						if uerr, pmsg := c07Unmarshal(h2, state); uerr != nil || pmsg != "" {
+							err = fmt.Errorf("state obtained through [%s] does not restore: err=%v panic=%q", class, uerr, pmsg)
+						} else {
+							h2.Write(msg[fill:])
+							if got, want := h2.Sum(nil), k.ref(msg); !bytes.Equal(got, want) {
+								err = fmt.Errorf("state obtained through [%s] restores to a hash that continues to %x, reference %x", class, got, want)
+							}
+						}
+					}
+					if err != nil {
+						what := fmt.Sprintf("%s after %d bytes, %d-byte destination prefix, %d spare (enumeration): %v", k.name, fill, pl, spare, err)
+						c.Violation(what, "")
+						t.Fatalf("VF-VIOLATION: property=C07 %s", what)
+					}
+					c.Case(fill%k.bs != 0, fmt.Sprintf("layout|%s|%d|%d|%d", k.name, fill, pl, ci), "layout-enum:"+class)
+					nA++
+					if !isAppender {
+						break
+					}
+				}
+			}
+		}
+	}
+	c.Exhaustive("serialisation layouts: every BinaryAppender kind (legacy Keccak-256/512, SHA3-224..512, SHAKE/cSHAKE wrappers) x 4 buffer fills x destination prefix length 0..2*len+8 x capacity {exact, spare<needed, spare>needed}; BLAKE2b/2s through MarshalBinary (their only entry point)", nA)
+
 	// structured wrong-length inputs: every truncation length, and for every tail length 1..marshaledSize of a
 	// second valid state: state || tail, tail || state, state || zeros; state = valid / out-of-range field
 	nL := 0
@@ -468,6 +574,129 @@ func TestC07(t *testing.T) {
 	}
 	c.Exhaustive("wrong-length inputs: every truncation 0..len-1 and, for every L in 1..len, state||tail_L, tail_L||state, state||zeros_L, state||head_L of a second valid state; state in {valid, size/n out of range, offset/direction out of range}; 5 kinds", nL)
 	c.Exhaustive("legacy Keccak marshaled state: n byte 0..255 x direction byte (all 256 at the boundaries and in thorough), rate byte 0..255", nK)
+}
+
+// c07Layout selects the serialisation entry point and the destination layout.
+type c07Layout struct {
+	entry  string // "MarshalBinary", "AppendBinary(nil)", "AppendBinary(empty,cap)", "AppendBinary(prefix)"
+	prefix []byte
+	spare  int
+}
+
+func c07DrawLayout(rt *rapid.T, h hash.Hash) c07Layout {
+	if _, ok := h.(encoding.BinaryAppender); !ok {
+		return c07Layout{entry: "MarshalBinary"}
+	}
+	m0, err := c07Marshal(h)
+	if err != nil {
+		return c07Layout{entry: "MarshalBinary"}
+	}
+	mlen := len(m0)
+	var l c07Layout
+	switch rapid.IntRange(0, 9).Draw(rt, "layout") {
+	case 0:
+		return c07Layout{entry: "MarshalBinary"}
+	case 1:
+		return c07Layout{entry: "AppendBinary(nil)"}
+	case 2:
+		l = c07Layout{entry: "AppendBinary(empty,cap)"}
+	case 3:
+		l = c07Layout{entry: "AppendBinary(prefix)", prefix: gen.RandBytes(rt, "dstPrefix", 1)}
+	case 4, 5:
+		l = c07Layout{entry: "AppendBinary(prefix)", prefix: gen.RandBytes(rt, "dstPrefix", rapid.IntRange(2, 32).Draw(rt, "dstPrefixLen"))}
+	case 6, 7:
+		l = c07Layout{entry: "AppendBinary(prefix)", prefix: gen.RandBytes(rt, "dstPrefix", max(1, mlen+rapid.IntRange(-8, 8).Draw(rt, "dstPrefixD")))}
+	default:
+		l = c07Layout{entry: "AppendBinary(prefix)", prefix: gen.RandBytes(rt, "dstPrefix", rapid.IntRange(mlen+9, 3*mlen).Draw(rt, "dstPrefixLen"))}
+	}
+	switch rapid.IntRange(0, 3).Draw(rt, "dstCap") {
+	case 0:
+		l.spare = 0
+	case 1:
+		l.spare = rapid.IntRange(1, mlen-1).Draw(rt, "dstSpareSmall")
+	case 2:
+		l.spare = mlen
+	default:
+		l.spare = mlen + rapid.IntRange(1, 64).Draw(rt, "dstSpareExtra")
+	}
+	return l
+}
+
+func (l c07Layout) class(mlen int) string {
+	if l.entry != "AppendBinary(prefix)" && l.entry != "AppendBinary(empty,cap)" {
+		return l.entry
+	}
+	pc := "prefix=0"
+	switch n := len(l.prefix); {
+	case n == 0:
+	case n == 1:
+		pc = "prefix=1"
+	case n <= 32:
+		pc = "prefix=small"
+	case n <= mlen+8:
+		pc = "prefix~marshaled-size"
+	default:
+		pc = "prefix>marshaled-size"
+	}
+	cc := "cap=exact"
+	switch {
+	case l.spare == 0:
+	case l.spare < mlen:
+		cc = "cap=spare<needed"
+	case l.spare == mlen:
+		cc = "cap=spare==needed"
+	default:
+		cc = "cap=spare>needed"
+	}
+	return "AppendBinary," + pc + "," + cc
+}
+
+// c07Serialize obtains the state through the selected entry point and checks
+// the append contract: result == prefix || MarshalBinary(), the caller's bytes
+// and spare capacity beyond the result untouched, and the hash not mutated.
+func c07Serialize(k c07Kind, h hash.Hash, l c07Layout, squeezing bool) (state []byte, class string, err error) {
+	var sumBefore []byte
+	if !squeezing {
+		sumBefore = h.Sum(nil)
+	}
+	m0, err := c07Marshal(h)
+	if err != nil {
+		return nil, l.entry, fmt.Errorf("MarshalBinary failed: %v", err)
+	}
+	if k.mlen != 0 && len(m0) != k.mlen {
+		return nil, l.entry, fmt.Errorf("MarshalBinary returned %d bytes, want %d", len(m0), k.mlen)
+	}
+	class = l.class(len(m0))
+	state = m0
+	if l.entry != "MarshalBinary" {
+		ap := h.(encoding.BinaryAppender)
+		var dst, backing []byte
+		if l.entry != "AppendBinary(nil)" {
+			dst, backing = mkDst(l.prefix, l.spare)
+		}
+		var res []byte
+		var aerr error
+		if msg, p := catch(func() { res, aerr = ap.AppendBinary(dst) }); p {
+			return nil, class, fmt.Errorf("AppendBinary [%s] panicked: %s", class, msg)
+		}
+		if aerr != nil {
+			return nil, class, fmt.Errorf("AppendBinary [%s] failed: %v", class, aerr)
+		}
+		if err := checkAppend(fmt.Sprintf("%s AppendBinary [%s, %d-byte prefix, %d spare]", k.name, class, len(l.prefix), l.spare), l.prefix, backing, res, m0); err != nil {
+			return nil, class, err
+		}
+		state = append([]byte{}, res[len(l.prefix):]...) // the appended region is what gets restored
+	}
+	m1, err := c07Marshal(h)
+	if err != nil || !bytes.Equal(m1, m0) {
+		return nil, class, fmt.Errorf("serialising [%s] changed the hash: MarshalBinary before %x, after %x (err %v)", class, m0, m1, err)
+	}
+	if !squeezing {
+		if sumAfter := h.Sum(nil); !bytes.Equal(sumAfter, sumBefore) {
+			return nil, class, fmt.Errorf("serialising [%s] changed the hash: Sum before %x, after %x", class, sumBefore, sumAfter)
+		}
+	}
+	return state, class, nil
 }
 
 // c07Transparency: write a prefix, Marshal, Unmarshal into a fresh hash of the
@@ -510,13 +739,13 @@ func c07Transparency(c *ev.Collector, rt *rapid.T, k c07Kind) {
 			fail("Read(%d) after %d bytes = %x, Keccak sponge gives %x", squeezed, prefix, out, want)
 		}
 	}
-	state, err := c07Marshal(h)
+	// serialise through a drawn entry point / destination layout
+	layout := c07DrawLayout(rt, h)
+	state, layoutClass, err := c07Serialize(k, h, layout, squeezed >= 0)
 	if err != nil {
-		fail("MarshalBinary failed: %v", err)
+		fail("%v", err)
 	}
-	if k.mlen != 0 && len(state) != k.mlen {
-		fail("MarshalBinary returned %d bytes, want %d", len(state), k.mlen)
-	}
+	c.Class("layout:" + layoutClass)
 	h2 := k.fresh()
 	if uerr, pmsg := c07Unmarshal(h2, state); uerr != nil || pmsg != "" {
 		fail("UnmarshalBinary of a state produced by MarshalBinary failed: err=%v panic=%q state=%x", uerr, pmsg, state)
